@@ -29,13 +29,28 @@ func unmarshalFromJson(jsonSpecs []byte) ([]OperationSpec, error) {
 
 	dec := json.NewDecoder(bytes.NewReader(jsonSpecs))
 	for {
-		var doc OperationSpec
-		err := dec.Decode(&doc)
+		var raw json.RawMessage
+		err := dec.Decode(&raw)
 		if err == io.EOF {
 			break
 		}
 		if err != nil {
 			return nil, err
+		}
+
+		var doc OperationSpec
+		if err := json.Unmarshal(raw, &doc); err != nil {
+			return nil, err
+		}
+
+		var fields map[string]json.RawMessage
+		if err := json.Unmarshal(raw, &fields); err != nil {
+			return nil, err
+		}
+		for field := range fields {
+			if err := checkKnownField(field); err != nil {
+				return nil, err
+			}
 		}
 
 		specSlice = append(specSlice, doc)
@@ -49,13 +64,28 @@ func unmarshalFromYaml(yamlSpecs []byte) ([]OperationSpec, error) {
 
 	dec := yaml.NewDecoder(bytes.NewReader(yamlSpecs))
 	for {
-		var doc OperationSpec
-		err := dec.Decode(&doc)
+		var node yaml.Node
+		err := dec.Decode(&node)
 		if err == io.EOF {
 			break
 		}
 		if err != nil {
 			return nil, err
+		}
+
+		var doc OperationSpec
+		if err := node.Decode(&doc); err != nil {
+			return nil, err
+		}
+
+		var fields map[string]any
+		if err := node.Decode(&fields); err != nil {
+			return nil, err
+		}
+		for field := range fields {
+			if err := checkKnownField(field); err != nil {
+				return nil, err
+			}
 		}
 
 		// yaml.v3 decodes numbers in free-form fields into Go ints, encoding/json into float64.
@@ -68,6 +98,21 @@ func unmarshalFromYaml(yamlSpecs []byte) ([]OperationSpec, error) {
 	}
 
 	return specSlice, nil
+}
+
+// checkKnownField rejects a field of an operation document that the schema does not list
+// (additionalProperties: false). The typed decoders drop such fields silently (and encoding/json
+// matches field names case-insensitively), so the schema validator never sees them.
+func checkKnownField(field string) error {
+	s := GetSchema("v0")
+	if s == nil {
+		return nil
+	}
+	if _, ok := s.Properties[field]; !ok {
+		return fmt.Errorf("unknown field '%s' in kubernetes patch spec", field)
+	}
+
+	return nil
 }
 
 // normalizeFreeFormFields passes the free-form fields of a YAML-decoded spec through JSON,
